@@ -68,7 +68,7 @@ def check(run):
         dist['terms-with-a-leader'] = sum(len(cluster.leaders_by_term(o)) for o in outs if not isinstance(o, str))
         dist['notifications-recorded'] = sum(len(nd[5]) for o in outs if not isinstance(o, str) for nd in o[-1][0])
         run.add_cases(ok, len({json.dumps(c) for c in cases}), [{'n': cases[0][0], 'cap': cases[0][1], 'schedule': cases[0][2][:12]}], dist,
-                      'cluster level: 3- and 5-node clusters of real Raft objects over a simulated network, seeded schedules of %d+ labels (elections with partial vote delivery, AppendEntries delivery/drop/duplication/delay, acks dropped/duplicated/delayed, client writes, heartbeats, same-term step-downs, graceful restarts, stray vote requests) plus directed scenarios; oracle: per node non-decreasing notified terms, one leader per notified term, the notified node was observed leading that term' % length)
+                      'cluster level: 3-, 4- and 5-node clusters of real Raft objects over a simulated network, seeded schedules of %d+ labels (elections with partial vote delivery, AppendEntries delivery/drop/duplication/delay, acks dropped/duplicated/delayed, client writes, heartbeats, same-term step-downs, graceful restarts, stray vote requests) plus directed scenarios; oracle: per node non-decreasing notified terms, one leader per notified term, the notified node was observed leading that term' % length)
     except Broken as b:
         broken.append(('harness', b.what, b.detail))
     return flow.conclude(run, broken, violations)
